@@ -85,6 +85,12 @@ pub fn gaps(ctx: &Ctx) {
     run(ctx, Knobs { gaps: true, full_gaps: true, ..Knobs::NONE });
 }
 /// two (thorough: three) data packets per cloud, every cut position of every record stream
+/// XML first, binary sections last: every gap before every section, so that the last packet of
+/// the last section ends anywhere relative to the end of the file (incl. exactly at it)
+pub fn tail(ctx: &Ctx) {
+    run(ctx, Knobs { gaps: true, full_gaps: true, xml_first: 2, ..Knobs::NONE });
+}
+
 pub fn cuts(ctx: &Ctx) {
     let base = if ctx.tier_thorough { 3 } else { 2 };
     run(ctx, Knobs { cuts: true, base_packets: base, non_data_packets: true, ..Knobs::NONE });
